@@ -473,6 +473,10 @@ impl TTS {
                         Value::Nodeset(nodes) => nodes.document_order_first().map(|node| node.string_value()).unwrap_or_default(),
                         _ => bail!("in 'bookmark': value returned from xpath '{}' does not evaluate to a string",  &xpath.to_string()),
                     };
+                    if id.is_empty() {
+                        // elements created from intent literals (e.g., '_of') have no id: there is nothing to mark
+                        return Ok( "".to_string() );
+                    }
                     return Ok( format!("<{}='{}'/>", tag_and_attr, id) );
                 },
                 _ => bail!("Implementation error: found bookmark value that did not evaluate to a string"),
